@@ -42,4 +42,15 @@ CHECKS["C02"] = {
     "note": "component flows are contract stubs assumed to be group actions (C07); uniqueness of implicit solutions (A8); 'up to solver tolerance' not quantified; vectors are abstract "
             "linear combinations (equalities proved coefficient-wise).",
 }
+CHECKS["C17"] = {
+    "engine": "pyvc",
+    "technique": "contract-based deductive verification: postconditions and loop invariants (ghost sufficient statistics) on the real adapters.py source; z3 with sympy polynomial-identity and exact-evaluation fallbacks",
+    "design_ref": "DESIGN.md section 7 C17",
+    "text": "Dual averaging update/finalize/initialize are proved equal to the documented recursion for all settings and histories (one-step contract, induction over the history); the initial "
+            "step-size search loop is cut by an invariant proving that it returns only at a log-2 crossing and raises only AdaptationError; Welford updates and the Chan merge are proved to "
+            "maintain ghost batch sums (variance adapter: loop invariant over any number of chains, so the result is independent of split and order; covariance adapter: 1-3 chains), "
+            "followed by exact regularisation, inverse metric and momentum refresh under the new metric.",
+    "note": "real arithmetic (numerical stability for large offsets NOT decided); arrays lifted component-wise (1 resp. 2 generic components); (1/m)^kappa and sqrt uninterpreted; matrix "
+            "constructors and sample_momentum are contract stubs; precondition: every chain contributes >= 1 update.",
+}
 NOT_APPLICABLE = {}
